@@ -14,12 +14,16 @@
      - single-expression replacement (the three _offset calls of _make_exprlike_fst): every surviving node ends up
        at mode_map(...) - before the region: fixed; after: rigidly moved; containers: grown - and every node of the
        new sub-tree at its standalone position moved rigidly to the put location.
+     - putting delimiters around a node T (par() / automatic parenthesization: _delimit_node, _parenthesize_grouping, whose
+       _put_src / _offset flags are TRANSLATED): every node that is not around T - before it, after it (also one that starts
+       exactly where T ended, the format specification of an f-string field) or below it - ends up exactly where its characters
+       are; T's ancestors keep their start and grow by the delimiters; T grows by both (Tuple) or moves with its text (grouping).
    (E) for expression slots is C09's theorem.  NOT PROVED: (E) for separator lists and statement blocks, the
    per-(type,field) handler glue, and preservation of `Ordered` along sequences: decided by the oracle cross-check over
    random edit sequences (py/props/C01.py); OH1 (CPython positions = token extents) is an oracle hypothesis. *)
 From Coq Require Import ZArith NArith List Bool Lia.
-From PF Require Import kernel.PyBase kernel.Text kernel.OffsetBase gen.ParamsOffset gen.OffsetNode models.Offset
-  proofs.TextProofs proofs.ParamsOffsetProofs proofs.OffsetProofs.
+From PF Require Import kernel.PyBase kernel.Text kernel.OffsetBase gen.ParamsOffset gen.OffsetNode gen.DelimitCalls models.Offset
+  models.Delimit proofs.TextProofs proofs.ParamsOffsetProofs proofs.OffsetProofs proofs.DelimitProofs.
 Import ListNotations.
 
 Theorem C01_every_put_is_one_splice : forall L P ln col eln ecol,
@@ -90,3 +94,75 @@ Example C01_nonvacuous :
   flat_pos (expr_replace 1 5 0 2 2 3 0 4 new t)
   = [Some (1, 0, 1, 11)%Z; Some (1, 0, 1, 1)%Z; Some (1, 4, 1, 11)%Z; Some (1, 4, 1, 7)%Z; Some (1, 10, 1, 11)%Z].
 Proof. vm_compute. reflexivity. Qed.
+
+(* ---- delimiters put around a node (par(), automatic parenthesization): models/Delimit.v over the TRANSLATED call flags ---- *)
+Theorem C01_role_reading_of_exclude_is_the_walk_map : forall pc lno colo p t i s, pc_excl_self pc = true ->
+  map_tree lno colo 0 1 (pc_tail pc) (pc_head pc) (Some 1%nat) (pc_offset_excluded pc) (shape p t i s)
+  = shape (put_at pc lno colo 1 ROther p) (put_at pc lno colo 1 RSelf t) (put_at pc lno colo 1 RInner i) (put_at pc lno colo 1 ROther s).
+Proof. exact put_at_is_map_tree. Qed.
+Print Assumptions C01_role_reading_of_exclude_is_the_walk_map.
+
+Theorem C01_delimited_node_grows_by_both_delimiters : forall ls cs le ce, pos_lt ls cs le ce = true ->
+  delimit_pos ls cs le ce RSelf (ls, cs, le, ce) = (ls, cs, le, (ce + 1 + b2z (le =? ls))%Z).
+Proof. exact delimit_self. Qed.
+Print Assumptions C01_delimited_node_grows_by_both_delimiters.
+
+Theorem C01_delimit_every_node_beside_or_below_keeps_its_text : forall ls cs le ce l c el ec,
+  pos_lt ls cs le ce = true -> pos_lt l c el ec = true ->
+  (forall r, (r = ROther /\ (pos_le el ec ls cs = true \/ pos_le le ce l c = true))
+             \/ (r = RInner /\ pos_le ls cs l c = true /\ pos_le el ec le ce = true) ->
+     delimit_pos ls cs le ce r (l, c, el, ec) = (l, char_col ls cs le ce l c, el, end_col ls cs le ce el ec)).
+Proof.
+  intros ls cs le ce l c el ec HT Hne r [[-> H]|[-> [H1 H2]]]; [now apply delimit_frame | now apply delimit_inner_frame].
+Qed.
+Print Assumptions C01_delimit_every_node_beside_or_below_keeps_its_text.
+
+Theorem C01_delimit_ancestors_grow_by_the_delimiters : forall ls cs le ce l c el ec, pos_lt ls cs le ce = true ->
+  pos_le l c ls cs = true -> pos_le le ce el ec = true ->
+  delimit_pos ls cs le ce ROther (l, c, el, ec) = (l, c, el, (ec + b2z (el =? ls) + b2z (el =? le))%Z).
+Proof. exact delimit_ancestors. Qed.
+Print Assumptions C01_delimit_ancestors_grow_by_the_delimiters.
+
+Theorem C01_delimit_following_node_is_not_overlapped : forall ls cs le ce l c el ec,
+  pos_lt ls cs le ce = true -> pos_lt l c el ec = true -> pos_le le ce l c = true ->
+  let '(_, _, tel, tec) := delimit_pos ls cs le ce RSelf (ls, cs, le, ce) in
+  let '(l', c', _, _) := delimit_pos ls cs le ce ROther (l, c, el, ec) in
+  pos_le tel tec l' c' = true.
+Proof. exact delimit_next_not_overlapped. Qed.
+Print Assumptions C01_delimit_following_node_is_not_overlapped.
+
+Theorem C01_closing_put_without_head_would_overlap :
+  let cl := {| pc_tail := TTrue; pc_head := TFalse; pc_excl_self := true; pc_offset_excluded := true |} in
+  let '(_, _, tel, tec) := wrap_pos cl delimit_open delimit_inner true 1 3 1 6 RSelf (1, 3, 1, 6)%Z in
+  let '(l', c', _, _) := wrap_pos cl delimit_open delimit_inner true 1 3 1 6 ROther (1, 6, 1, 8)%Z in
+  pos_lt l' c' tel tec = true.
+Proof. exact close_head_false_overlaps. Qed.
+Print Assumptions C01_closing_put_without_head_would_overlap.
+
+Theorem C01_grouped_node_moves_with_its_text : forall ls cs le ce, pos_lt ls cs le ce = true ->
+  group_pos ls cs le ce RSelf (ls, cs, le, ce) = (ls, char_col ls cs le ce ls cs, le, end_col ls cs le ce le ce)
+  /\ group_pos ls cs le ce RSelf (ls, cs, le, ce) = (ls, (cs + 1)%Z, le, (ce + b2z (le =? ls))%Z).
+Proof. intros; split; [now apply group_self_is_text | now apply group_self]. Qed.
+Print Assumptions C01_grouped_node_moves_with_its_text.
+
+Theorem C01_group_every_node_beside_or_below_keeps_its_text : forall ls cs le ce l c el ec,
+  pos_lt ls cs le ce = true -> pos_lt l c el ec = true ->
+  (forall r, (r = ROther /\ (pos_le el ec ls cs = true \/ pos_le le ce l c = true))
+             \/ (r = RInner /\ pos_le ls cs l c = true /\ pos_le el ec le ce = true) ->
+     group_pos ls cs le ce r (l, c, el, ec) = (l, char_col ls cs le ce l c, el, end_col ls cs le ce el ec)).
+Proof.
+  intros ls cs le ce l c el ec HT Hne r [[-> H]|[-> [H1 H2]]]; [now apply group_frame | now apply group_inner_frame].
+Qed.
+Print Assumptions C01_group_every_node_beside_or_below_keeps_its_text.
+
+Theorem C01_group_ancestors_grow_by_the_parentheses : forall ls cs le ce l c el ec, pos_lt ls cs le ce = true ->
+  pos_le l c ls cs = true -> pos_le le ce el ec = true ->
+  group_pos ls cs le ce ROther (l, c, el, ec) = (l, c, el, (ec + b2z (el =? ls) + b2z (el =? le))%Z).
+Proof. exact group_ancestors. Qed.
+Print Assumptions C01_group_ancestors_grow_by_the_parentheses.
+
+(* non-vacuity: x = f'{a,b:x}' *)
+Example C01_delimit_nonvacuous :
+  delimit_pos 1 7 1 10 RSelf (1, 7, 1, 10)%Z = (1, 7, 1, 12)%Z /\ delimit_pos 1 7 1 10 ROther (1, 10, 1, 12)%Z = (1, 12, 1, 14)%Z
+  /\ delimit_pos 1 7 1 10 RInner (1, 9, 1, 10)%Z = (1, 10, 1, 11)%Z /\ delimit_pos 1 7 1 10 ROther (1, 4, 1, 14)%Z = (1, 4, 1, 16)%Z.
+Proof. exact delimit_fstring_field. Qed.
